@@ -8,9 +8,7 @@ use core::future::Future;
 use core::pin::Pin;
 use std::collections::{HashMap, hash_map};
 
-use parking_lot::{
-    RwLock, RwLockReadGuard, RwLockUpgradableReadGuard, RwLockWriteGuard,
-};
+use parking_lot::RwLockReadGuard;
 use tokio::sync::Mutex;
 
 use crate::base::iana::{Class, Rtype};
@@ -24,6 +22,7 @@ use crate::zonetree::{
 };
 
 use super::read::ReadZone;
+use super::sync::{RwLock, RwLockWriteGuard, upgrade};
 use super::versioned::{Version, Versioned};
 use super::write::{WriteZone, ZoneVersions};
 
@@ -379,7 +378,7 @@ impl NodeChildren {
         if let Some(node) = lock.get(label) {
             return op(node, false);
         }
-        let mut lock = RwLockUpgradableReadGuard::upgrade(lock);
+        let mut lock = upgrade(lock);
         lock.insert(label.into(), Default::default());
         let lock = RwLockWriteGuard::downgrade(lock);
         op(lock.get(label).unwrap(), true)
